@@ -28,6 +28,7 @@ func (q Q) children() []Q {
 	out = append(out, q.Must...)
 	out = append(out, q.Shd...)
 	out = append(out, q.Not...)
+	out = append(out, q.Flt...)
 	return out
 }
 
@@ -104,8 +105,13 @@ func (q Q) evalAt(n *EvalDoc, at []string, root bool, cx *Ctx) bool {
 		return cnt >= max(1, q.DMin)
 	case "boolean":
 		hasM := len(q.Must) > 0
-		if !hasM && len(q.Shd) == 0 && len(q.Not) == 0 {
+		if !hasM && len(q.Shd) == 0 && len(q.Not) == 0 && len(q.Flt) == 0 {
 			return false
+		}
+		for _, c := range q.Flt {
+			if !c.evalAt(n, at, root, cx) {
+				return false
+			}
 		}
 		for _, c := range q.Not {
 			if c.evalAt(n, at, root, cx) {
